@@ -9,7 +9,7 @@ for P in "$@"; do
     git -C /repo worktree add -q --detach $w HEAD || exit 9
     ( cd $w && git apply $src/patch.diff ) || { echo "$name: APPLY-FAILED"; git -C /repo worktree remove --force $w; continue; }
     ( cd $w && PYTHONPATH=$w timeout 600 /venv/bin/python -m pytest -q -p no:cacheprovider -x -q >/tmp/wt/vd_suite.log 2>&1 ); rs=$?
-    rc=0; [ -f $src/check.py ] && { ( cd $w && PYTHONPATH=$w timeout 300 /venv/bin/python $src/check.py >/tmp/wt/vd_check.log 2>&1 ); rc=$?; }
+    rc=0; [ -f $src/check.py ] && { ( cd $w && PYTHONPATH=$w timeout 1200 /venv/bin/python $src/check.py >/tmp/wt/vd_check.log 2>&1 ); rc=$?; }
     git -C /repo worktree remove --force $w
     echo "$name suite_rc=$rs check_rc=$rc"
     [ $rs -eq 0 ] && [ $rc -eq 0 ] || { echo "$name: NOT CONFIRMED, skipped"; continue; }
